@@ -498,7 +498,7 @@ TASKS = (
        FnTask("C16", "C16.once.forward.escape_inventory", escape_inventory, "table", native_once)]
     + [OnceWrapper("C16", f"C16.once.wrappers.{w}", w, ["markup_iff_autoescape", "text_is_generated_output_once"]) for w in WRAPPERS]
     + emitted_wrapper_tasks()
-    + [K.FlowTask("C16", f"C16.once.filter.{f}", f, "markup_preserved") for f in ("join", "replace")]
+    + [K.FlowTask("C16", f"C16.once.filter.{f}", f, "markup_preserved") for f in ("join", "replace", "format")]
     + [FnTask("C16", "C16.once.dependency", dependency, "bounded", native_once)]
 )
 
